@@ -9,4 +9,10 @@ CHECKS = {
   "note": "Trusted: Coq kernel + vm_compute; the hand-written model; queue.get(timeout) semantics as stated in Model/EagerBatcher.v; integer virtual time (float rounding not modelled). No axioms.",
   "design_ref": "DESIGN.md section 5 C19",
  },
+ "C08": {
+  "technique": "Coq proof (inductive counting invariant over all schedules) + trace validation of the real Buffer/fifo_stream/Parmapper under a deterministic scheduler",
+  "text": "Theorems for every capacity, concurrency, buffer size, source, failure table, stop position and every interleaving (all schedules of the small-step models): pulled-but-not-delivered <= capacity+3 (fifo_stream; 2*concurrency+3 for parmap), <= n+2 for buffer(n), running worker calls <= concurrency. The models are tied to the code on every run by trace validation: the unmodified mpservice code runs on real threads under a deterministic scheduler with virtual primitives, schedules that drive the queues to their bounds are included, and each logged run is replayed event by event in the Coq model; a runtime oracle recomputes the look-ahead from the event log.",
+  "note": "Trusted: Coq kernel + vm_compute; the hand-written models; the scheduler and virtual primitives (CPython semantics of Lock/Condition/Event/Future); thread-locality of code between logged operations; the stdlib thread pool is replaced by a managed pool with max_workers threads. Process executors are not scheduled. No axioms.",
+  "design_ref": "DESIGN.md section 5 C08",
+ },
 }
